@@ -213,10 +213,18 @@ def run_observation(scn: dict, with_dask: bool, *, simulate: bool = True, forced
     s = copy.deepcopy(scn)
     s["mode"]["with_dask"] = with_dask
     rec: dict[str, Any] = {"exc": None, "tree": None, "hist": None, "sim": None, "rng": None}
-    if builder == "yaml":
-        mode, det, pipe = world.build_yaml(s, yaml_rng)
-    else:
-        mode, det, pipe = world.build_python(s)
+    try:
+        if builder == "yaml":
+            mode, det, pipe = world.build_yaml(s, yaml_rng)
+        else:
+            mode, det, pipe = world.build_python(s)
+    except Exception as exc:  # construction of the user's objects failed
+        rec["exc"] = exc
+        rec["tb"] = traceback.format_exc(limit=6)
+        rec["phase"] = "build"
+        rec["hist"] = []
+        rec["rng_restored"] = True
+        return rec
     if keep_objects:
         rec["objects"] = (mode, det, pipe)
     state_before = np.random.get_state()
